@@ -3,7 +3,7 @@ from . import msgs_common as MC
 
 ID = 'C03'
 PKG = 'pkg/dialects/common'
-HARNESS_FILES = ['pkg/message/zz_verif_c03.go']
+HARNESS_FILES = ['pkg/message/zz_verif_c03.go', 'pkg/message/zzverifalt/zz_verif_alt.go']
 ALLOW = MC.ALLOW
 INITS = MC.INITS
 OPTIONS = {}
@@ -29,12 +29,12 @@ def prepare_groups(p):
 
 def tasks(tier):
     from gosym.check import Task
-    return MC.m_tasks(_state['msgs'], tier) + [Task('verifHarness_C03_user', [v], pkg='pkg/message', group='pkg/message') for v in (0, 1)] + [Task('verifHarness_C03_order', [], {'sort_lemma': True, 'sort_lemma_types': [1, 4, 7, 9, 11] if tier == 'quick' else None},
+    return MC.m_tasks(_state['msgs'], tier) + [Task('verifHarness_C03_user', [v], pkg='pkg/message', group='pkg/message') for v in (0, 1)] + [Task('verifHarness_C03_same_name', [o], pkg='pkg/message', group='pkg/message') for o in (0, 1)] + [Task('verifHarness_C03_order', [], {'sort_lemma': True, 'sort_lemma_types': [1, 4, 7, 9, 11] if tier == 'quick' else None},
                                                   pkg='pkg/message', group='pkg/message')]
 
 
 def required_reach(tier):
-    return ['M', 'C03/order', 'C03/U']
+    return ['M', 'C03/order', 'C03/U', 'C03/N']
 
 
 def bounds(tier):
